@@ -54,7 +54,8 @@ J11Name(S, CH, M, rec, ni) ==
    table of ITS checker and the name - not by earlier, abandoned, failed or concurrent enumerations on the
    same object, nor by other checkers constructed before or after.  An enumeration that ran to its end reports
    exactly the expected set; one that was cut short reports a subset of it (which subset is not fixed).
-   r1 / r2 above are the last enumerations of the history on checkers 1 and 2. *)
+   r1 / r2 above are the last enumerations of the history on checkers 1 and 2.
+   (ev.conc: how many enumerations of the same checker were suspended, to be resumed, while this one ran.) *)
 HasHist(rec) == "hist" \in DOMAIN rec
 Whole(ev) == \/ ev.mode \in {"full", "nested"}
              \/ (ev.mode = "take" /\ ev.ny < ev.k)
